@@ -131,12 +131,23 @@ func runC03(cx *Ctx, r *Report) {
 			}
 		}
 	}
+	// one payout shared by the plain and the mint route (settle: case mint: Mint; fallthrough;
+	// case release: Send): it runs whenever the mint does and never where the burn does
+	sharedPay := false
+	if len(plain) == 1 && len(mint) == 1 && len(give) == 0 && len(burn) == 1 &&
+		impliedByFacts(mint[0].w, mint[0].ev, plain[0].ev) && excludedByFacts(burn[0].w, burn[0].ev, plain[0].ev) {
+		give = plain
+		sharedPay = true
+	}
 	if len(plain) == 1 && len(mint) == 1 && len(give) == 1 && len(burn) == 1 {
 		to := "addr(" + H + ".To)"
 		amt := H + ".Amount"
 		okEnds := plain[0].ev.Args[2].LooseString() == to && lastArgS(plain[0].ev) == amt && give[0].ev.Args[2].LooseString() == to && lastArgS(give[0].ev) == amt && lastArgS(mint[0].ev) == amt && lastArgS(burn[0].ev) == amt
 		r.check(okEnds, "claim-inventory", "ClaimHTLC|endpoints", plain[0].ev.Pos(cx), "payouts go to the stored To with the stored Amount; mint/burn use the stored Amount", "claim payout endpoints/amounts differ from the stored To/Amount: "+plain[0].ev.Args[2].LooseString()+" "+lastArgS(plain[0].ev)+" / "+give[0].ev.Args[2].LooseString()+" "+lastArgS(give[0].ev)+" / mint "+lastArgS(mint[0].ev)+" / burn "+lastArgS(burn[0].ev))
 		_, g1 := plain[0].fieldFact(false, H+".Transfer")
+		if sharedPay {
+			g1 = true // (exclusive with the burn route, implied by the mint route: checked above)
+		}
 		_, g2a := mint[0].fieldFact(true, H+".Transfer")
 		_, g2b := mint[0].fact(true, "("+H+".Direction == 1)")
 		_, g3a := burn[0].fieldFact(true, H+".Transfer")
@@ -147,7 +158,7 @@ func runC03(cx *Ctx, r *Report) {
 				fmt.Fprintf(os.Stderr, "   fact %s\n", trunc(ft.String(), 160))
 			}
 		}
-		r.check(g1 && g2a && g2b && g3a && g3b && coExecuted(mint[0].ev, give[0].ev), "claim-routes-exclusive", "ClaimHTLC", mint[0].ev.Pos(cx), "routes are guarded by ¬Transfer | Transfer∧Direction==Incoming (mint then pay) | Transfer∧Direction≠Incoming (burn): pairwise contradictory", "the three claim routes are not guarded by pairwise contradictory conditions on Transfer/Direction")
+		r.check(g1 && g2a && g2b && g3a && g3b && (coExecuted(mint[0].ev, give[0].ev) || sharedPay), "claim-routes-exclusive", "ClaimHTLC", mint[0].ev.Pos(cx), "routes are guarded by ¬Transfer | Transfer∧Direction==Incoming (mint then pay) | Transfer∧Direction≠Incoming (burn): pairwise contradictory", "the three claim routes are not guarded by pairwise contradictory conditions on Transfer/Direction")
 		// at least one route on every successful path of the function that dispatches
 		// (the routes may sit in helpers, switch arms or steps of a first-error combinator:
 		// judged in the lowest frame that holds all of them)
@@ -163,6 +174,11 @@ func runC03(cx *Ctx, r *Report) {
 		if disp != nil {
 			sites := coveringSites(disp, []hev{plain[0], mint[0], burn[0]})
 			okOne := len(sites) > 0 && mustPass(disp.Fn, func(i ssa.Instruction) bool { return sites[i] })
+			if !okOne && len(sites) > 0 {
+				// the dispatcher switches on a computed kind: judged once per value the kind can
+				// have on this chain (a kind that no path produces opens no path)
+				okOne = plain[0].w.mustPassPerKind(disp, func(i ssa.Instruction) bool { return sites[i] })
+			}
 			okInner := true
 			r.check(okOne && okInner, "claim-routes-total", "ClaimHTLC", plain[0].ev.Pos(cx), "every successful claim passes through exactly one payout route", "a successful claim path can avoid every payout route")
 		}
@@ -456,7 +472,7 @@ func runC04(cx *Ctx, r *Report) {
 					// (the counter update implies the bank effect: the two run together, or every path
 					// from the update to a success exit passes the bank effect - a payout shared with
 					// the plain route after the switch; the converse is the double-entry-converse rule)
-					if coExecuted(d.x.ev, b.ev) || sameCase(d.x.ev, b.ev) || followedBy(d.x.ev, b.ev) {
+					if coExecuted(d.x.ev, b.ev) || sameCase(d.x.ev, b.ev) || followedBy(d.x.ev, b.ev) || coExecutedByFacts(d.x.w, d.x.ev, b.ev) || impliedByFacts(d.x.w, d.x.ev, b.ev) {
 						return &banks[i]
 					}
 				}
